@@ -11,6 +11,7 @@ import NflowsModel.Lemmas.StructureExec
 import NflowsModel.Lemmas.CubicWhole
 import NflowsModel.Lemmas.QuadWhole
 import NflowsModel.Lemmas.TanhStable
+import NflowsModel.Lemmas.ARWhole
 /-!
 # C01 — the forward log-abs-det equals log |det Jacobian| of the map actually computed
 
@@ -251,5 +252,19 @@ theorem tanh_executed_logdet (e : Float → ℝ) (x : ℝ) (h2 : e 2.0 = 2) (hm2
     (x < -10 → tanhT (NF.realX e) false x = .ok (Real.tanh x, 2 * (Real.log 2 + x)) ∧
         |2 * (Real.log 2 + x) - Real.log (1 - Real.tanh x ^ 2)| ≤ 2 * Real.exp (2 * x)) :=
   ⟨TanhStable.tanhT_forward e x h2 hm2 hl, TanhStable.tanhT_forward_threshold e x h2 hm2 hl⟩
+
+/-- **executed autoregressive transform**: entry `b` of the returned log-abs-det is `log |det|` of the derivative of the row map
+    (other rows fixed) — the triangular shape comes from `AutoregNet`, the diagonal from the per-element derivative law `hdiag`
+    (discharged for the affine and rational-quadratic elements in `Lemmas/ARWhole.lean`); `hL` is differentiability of the
+    row map, a hypothesis because the conditioner is arbitrary. -/
+theorem exec_autoregressive_row_logdet (e : Float → ℝ) (c : ElCfg) (B F : Nat) (net : Array ℝ → Array ℝ) (x : Array ℝ)
+    (hnet : NF.ARWhole.AutoregNet B F (NF.ARWhole.pw c) net) (hx : x.size = B * F) {b : Nat} (hb : b < B)
+    {L : (Fin F → ℝ) →L[ℝ] (Fin F → ℝ)}
+    (hL : HasFDerivAt (NF.ARWhole.rowMap e c B F net x b) L (fun i => x.getD (b * F + i.1) 0))
+    (hdiag : ∀ i : Fin F, HasDerivAt (NF.ARWhole.elMap e c F (net x) b i)
+      (Real.exp (ldOf (NF.realX e) (NF.arEl (NF.realX e) c F x (net x) false b i))) (x.getD (b * F + i.1) 0)) :
+    (NF.ARWhole.arForward (NF.realX e) c B F net x).ld[b]?
+      = some (Real.log |LinearMap.det (L : (Fin F → ℝ) →ₗ[ℝ] (Fin F → ℝ))|) :=
+  NF.ARWhole.ar_row_logdet e c B F net x hnet hx hb hL hdiag
 
 end Properties.C01
